@@ -264,7 +264,8 @@ print(json.dumps(out))
 # identifiers that are legal in a spec, are not Python reserved words, and collide with something the generated module uses
 HAZARD_FIELDS = ['self', 'cls', 'type', 'id', 'property', 'object', 'bb', 'bv', 'validator', 'x_', '_x', '_tag', '_value', 'is_x', 'get_x', 'tag', 'value',
                  'dict', 'str', 'int', 'print', 'exec', 'match', 'case', 'datetime', 'warnings', 'other_', 'field', 'default']
-HAZARD_TYPES = ['Exception', 'Object', 'Dict', 'Type', 'Bb', 'Bv', 'Struct', 'Union', 'Route', 'Text', 'Validator', 'Attribute', 'Datetime', 'Ss']
+HAZARD_TYPES = ['Exception', 'Object', 'Dict', 'Type', 'Bb', 'Bv', 'Struct', 'Union', 'Route', 'Text', 'Validator', 'Attribute', 'Datetime', 'Ss',
+                'HTTPError', 'io_error', 'plainReply', 'X2y', 'ABC']
 HAZARD_NAMESPACES = ['bb', 'bv', 'stone_base', 'typing', 'datetime', 'sys', 'json', 're', 'warnings', 'base', 'ns1', 'a_b']
 
 
@@ -272,7 +273,9 @@ def hazard_task(pos, name):
     if pos == 'field':
         specs = [('a.stone', 'namespace a\n\nstruct S\n    %s Int32\n    x Int32 = 2\n\nunion U\n    %s\n    t2 S\n\nstruct C extends S\n    y %s?\n' % (name, name, 'U'))]
     elif pos == 'type':
-        specs = [('a.stone', 'namespace a\n\nstruct %s\n    f Int32\n\nstruct T extends %s\n    g %s?\n\nunion Uu\n    t %s\n\nalias Al = %s\n\nroute r(%s, Void, Void)\n' % ((name,) * 6))]
+        specs = [('a.stone', 'namespace a\n\nstruct %s\n    f Int32\n\nstruct T extends %s\n    g %s?\n\nunion Uu\n    t %s\n\nalias Al = %s\n\nroute r(%s, Void, Void)\n' % ((name,) * 6) +
+                  '\nstruct %sRoot\n    union\n        leaf %sLeaf\n    k Int32\n\nstruct %sLeaf extends %sRoot\n    m Int32\n\nunion %sChoice\n    one\n    two %s\n' % ((name,) * 6)),
+                 ('zz.stone', 'namespace zz\n\nimport a\n\nstruct Far\n    g a.%s\n    h List(a.%sRoot)?\n    c a.%sChoice = one\n\nalias FarAl = a.%s\n\nunion FarU\n    t a.%sLeaf\n\nroute reach(a.%s, a.%sRoot, a.%sChoice)\n' % ((name,) * 8))]
     else:
         specs = [('x.stone', 'namespace %s\n\nstruct S\n    f Timestamp("%%Y") = "2000"\n\nunion U\n    a\n    b S\n' % name),
                  ('y.stone', 'namespace zz\n\nimport %s\n\nstruct T\n    g %s.S\n    h %s.U = a\n\nroute r(%s.S, T, Void)\n' % ((name,) * 4))]
@@ -310,6 +313,14 @@ def hazard_task(pos, name):
                 t = m.T(f=1)
                 if not isinstance(t, cls) or pkg.ss.json_compat_obj_encode(m.T_validator, t) != {'f': 1}:
                     return {'outcome': 'hazard:differs', 'viol': [viol('hazard-name:type:%s:use' % name, 'struct named %s misbehaves' % name, inputs)], 'n': 1}
+                leaf = getattr(m, fmt_class(name + 'Leaf'))(k=1, m=2)
+                root_v = getattr(m, fmt_class(name + 'Root') + '_validator')
+                enc = pkg.ss.json_compat_obj_encode(root_v, leaf)
+                if enc != {'.tag': 'leaf', 'k': 1, 'm': 2} or pkg.ss.json_compat_obj_decode(root_v, enc) != leaf:
+                    return {'outcome': 'hazard:differs', 'viol': [viol('hazard-name:type:%s:subtypes' % name, 'subtype tree named after %s: encoding %r' % (name, enc), inputs)], 'n': 1}
+                far = mods['zz'].Far(g=cls(f=3))
+                if pkg.ss.json_compat_obj_encode(mods['zz'].Far_validator, far) != {'g': {'f': 3}}:
+                    return {'outcome': 'hazard:differs', 'viol': [viol('hazard-name:type:%s:foreign-use' % name, 'type named %s used from another namespace misbehaves' % name, inputs)], 'n': 1}
             else:
                 t = mods['zz'].T(g=mods[name].S())
                 enc = pkg.ss.json_compat_obj_encode(mods['zz'].T_validator, t)
